@@ -123,6 +123,10 @@ def build_origin(spec: tuple, src=None) -> Any:
 
             return get_xml_origin(source(spec[1]), spec[2])
         return XMLFileOrigin(source(spec[1]), XMLPath(spec[2]))
+    if k == "whole":
+        from pyoak.origin import EntireSourcePosition, Origin
+
+        return Origin(source(spec[1]), EntireSourcePosition())  # the plain Origin class with the field-less position
     if k == "multi":
         return merge_origins(*[build_origin(m) for m in spec[1]])
     raise ValueError(spec)
@@ -139,6 +143,8 @@ def gen_origin(rng, allow_multi: bool = True, p_no: float = 0.4) -> tuple:
         a = rng.randrange(0, min(n, 12)) if n else 0
         b = rng.randrange(a, min(n, a + 8) + 1)
         return ("code", s, a, min(b, n))
+    if r < 0.6:
+        return ("whole", rng.randrange(N_SOURCES))
     if r < 0.7:
         return ("gen", rng.randrange(N_SOURCES))
     if r < 0.85 or not allow_multi:
@@ -164,6 +170,8 @@ def canon_spec(spec: tuple) -> tuple:
         return ("GeneratedCodeOrigin", _canon_src_idx(spec[1]), ("CodeRange", (0, 1, 0), (0, 1, 0)))
     if k == "xml":
         return ("XMLFileOrigin", _canon_src_idx(spec[1]), ("XMLPath", spec[2]))
+    if k == "whole":
+        return ("Origin", _canon_src_idx(spec[1]), ("EntireSourcePosition",))
     if k == "multi":
         return ("MultiOrigin", tuple(canon_spec(m) for m in spec[1]))
     raise ValueError(spec)
